@@ -10,7 +10,7 @@ if os.path.exists(out_json):
     res = json.load(open(out_json))
 enabled = open(os.path.join(ROOT, "props", "ENABLED")).read().split()
 def sh(cmd, **kw):
-    return subprocess.run(cmd, shell=True, stdout=subprocess.PIPE, stderr=subprocess.STDOUT, text=True, **kw)
+    return subprocess.run(cmd, shell=True, stdout=subprocess.PIPE, stderr=subprocess.STDOUT, text=True, errors="replace", **kw)
 for d in sorted(glob.glob(os.path.join(SRC, "C*-*"))):
     name = os.path.basename(d)
     if only and name not in only and name.split("-")[0] not in only:
